@@ -1,4 +1,4 @@
-import XModel.TableThms
+import XModel.TableRect
 /-!
 # C14 — every Table the API produces is rectangular and leaves its source untouched
 Model: the derivations of `XModel/Table.lean` (`selectRows`, `selectCols`, `copyT`, `mulT`, `addT`) on
@@ -44,6 +44,69 @@ theorem C14_rows_rect_partial (t : Tbl) (h : Rect t) (ps : List Nat) (hps : ∀ 
   have hc' : c ∈ t.colNames := by simpa [selectRows] using hc
   obtain ⟨v, hv, hl⟩ := h.2 c hc'
   exact ⟨_, hcol c v hv, by rw [hn]; exact hlen v hl⟩
+
+/-- `_copy()` keeps the rectangle and the length -/
+theorem C14_copy_rect (t : Tbl) (h : Rect t) : Rect (copyT t) ∧ (copyT t).nrows = t.nrows := copyT_rect t h
+
+/-- `t * k` (k ≥ 1): rectangular, k times the length -/
+theorem C14_mul_rect (t : Tbl) (h : Rect t) (k : Nat) (r : Tbl) (hr : mulT t k = .ok r) :
+    Rect r ∧ r.nrows = k * t.nrows := mulT_rect t h k r hr
+
+/-- `a + b` for tables listing the same columns: rectangular, the lengths add -/
+theorem C14_add_rect (a b : Tbl) (ha : Rect a) (hb : Rect b) (hsame : ∀ c ∈ a.colNames, c ∈ b.colNames)
+    (r : Tbl) (hr : addT a b = .ok r) : Rect r ∧ r.nrows = a.nrows + b.nrows := addT_rect a b ha hb hsame r hr
+
+/-- `cols[names]` for listed names: rectangular (the index column is added when it was not listed), same length -/
+theorem C14_cols_rect (t : Tbl) (h : Rect t) (names : List String) (hn : ∀ c ∈ names, c ∈ t.colNames)
+    (r : Tbl) (hr : selectCols t names = .ok r) : Rect r ∧ r.nrows = t.nrows := selectCols_rect t h names hn r hr
+
+/-- the derivations the model covers, as one language; chains of any length stay rectangular -/
+inductive Deriv where
+  | rows (ps : List Nat)
+  | cols (names : List String)
+  | copy
+  | mul (k : Nat)
+  | addSelf
+
+def applyDeriv (t : Tbl) : Deriv → Except TErr Tbl
+  | .rows ps => if ps.all (· < t.nrows) then .ok (selectRows t ps) else .error .indexError
+  | .cols names => if names.all (· ∈ t.colNames) then selectCols t names else .error .keyError
+  | .copy => .ok (copyT t)
+  | .mul k => mulT t k
+  | .addSelf => addT t t
+
+theorem C14_step_rect (t : Tbl) (h : Rect t) (d : Deriv) (r : Tbl) (hr : applyDeriv t d = .ok r) : Rect r := by
+  cases d with
+  | rows ps =>
+    simp only [applyDeriv] at hr
+    split at hr
+    · next hall =>
+      cases hr
+      have hne : t.colNames ≠ [] := fun e => by have := h.1; rw [e] at this; cases this
+      exact (C14_rows_rect_partial t h ps (fun k hk => by simpa using List.all_eq_true.mp hall k hk) hne).1
+    · cases hr
+  | cols names =>
+    simp only [applyDeriv] at hr
+    split at hr
+    · next hall => exact (selectCols_rect t h names (fun c hc => by simpa using List.all_eq_true.mp hall c hc) r hr).1
+    · cases hr
+  | copy => simp only [applyDeriv, Except.ok.injEq] at hr; subst hr; exact (copyT_rect t h).1
+  | mul k => exact (mulT_rect t h k r hr).1
+  | addSelf => exact (addT_rect t t h h (fun _ hc => hc) r hr).1
+
+/-- **every chain of derivations** that succeeds ends in a rectangular table -/
+theorem C14_chain_rect : ∀ (ds : List Deriv) (t r : Tbl), Rect t →
+    ds.foldlM applyDeriv t = .ok r → Rect r
+  | [], t, r, h, hr => by
+    simp only [List.foldlM_nil, pure, Except.pure, Except.ok.injEq] at hr
+    subst hr; exact h
+  | d :: ds, t, r, h, hr => by
+    simp only [List.foldlM_cons, bind, Except.bind] at hr
+    cases h1 : applyDeriv t d with
+    | error e => simp [h1] at hr
+    | ok t1 =>
+      simp only [h1] at hr
+      exact C14_chain_rect ds t1 r (C14_step_rect t h d t1 h1) hr
 
 /-- a derivation is a function of its argument: the source table is the same value afterwards -/
 theorem C14_source_unchanged (t : Tbl) (ps : List Nat) : (fun src => (selectRows src ps, src)) t = (selectRows t ps, t) := rfl
